@@ -438,6 +438,25 @@ Section Q.
     f_equal; apply forallb_eq; intros e; now rewrite get_ok.
   Qed.
 
+  Lemma vfold_calls (l : amap) c calls :
+    snd (fst (vfold (nat * nat)
+      (fun k v '(c, calls) => match c with O => ((O, S calls), false) | S c' => ((c', S calls), true) end)
+      l (c, calls))) = (calls + Nat.min (S c) (length l))%nat.
+  Proof.
+    revert c calls. induction l as [|[k v] l IH]; intros c calls; simpl.
+    - lia.
+    - destruct c as [|c']; [simpl; lia|]. rewrite IH. simpl. lia.
+  Qed.
+
+  (** the visitor is called once per accepted pair and once more to say stop (if anything is left) *)
+  Lemma trav_stop_calls_ok o j (t : tree) :
+    trav_stop_calls o j t = Nat.min (S j) (length (trav_list o t)).
+  Proof.
+    rewrite trav_list_olist. unfold trav_stop_calls. destruct (other_dec o) as [->|Hn].
+    - destruct t; reflexivity.
+    - rewrite traverse_vfold by auto. now rewrite vfold_calls.
+  Qed.
+
   (** early exit in any traversal order: the visitor sees a prefix of the full listing *)
   Lemma trav_stop_prefix o j (t : tree) : trav_stop o j t = firstn j (trav_list o t).
   Proof.
